@@ -502,7 +502,7 @@ class _TotalJacInfo(object):
         # Store which VOIs require unit scaling.  The scalers are looked up by name, so this also
         # holds when only some of the driver's variables are requested (their driver scaling
         # is applied in that case as well).
-        if not (has_custom_derivs and _functional):
+        if driver and not (has_custom_derivs and _functional):
             self._identify_unit_active_vars()
 
         # Apply explicit unit conversions requested by the functional API.
